@@ -2,7 +2,7 @@
    the Rust source (Gen/TableLayouts.v), and the tables assembled from several layouts
    (maxp 0.5/1.0, OS/2 versions). *)
 From AV Require Import Base.Prelude Base.Lemmas Gen.ReaderPrims Model.Reader Model.ReaderExt
-  Proofs.ReaderProofs Proofs.EncodeProofs Model.Layout Proofs.LayoutProofs Gen.TableLayouts Model.Tables.
+  Proofs.ReaderProofs Proofs.EncodeProofs Model.TableLayout Proofs.TableLayoutProofs Gen.TableLayouts Model.Tables.
 From Coq Require Import ZifyBool ZifyNat.
 Ltac Zify.zify_post_hook ::= Z.div_mod_to_equations.
 Open Scope Z_scope.
